@@ -6,6 +6,8 @@ C12.a stale-global analysis (E4): no mutable module global of the front-end can 
 C12.b entry sequencing: what get_sfs_dict reads is definitely assigned by evm2rbr_compiler
 C12.c process-wide singletons / class-level state are idempotent; mutable constants are read as module attributes
 C12.d other module-level state on the per-block path (greedy `verbose`, ...) is assigned before it is read
+C12.e no other module keeps run-time state across blocks
+C12.f no written mutable default argument
 """
 import ast
 
